@@ -1,6 +1,6 @@
 #!/bin/sh
 # Runs every claimed check (quick tier unless TIER is set) in parallel; prints one line per property.
-cd /verif
+cd "$(dirname "$0")/.."
 T=${TIER:-quick}
 python3 -c "import json; print('\n'.join(c['property_id'] for c in json.load(open('MANIFEST.json'))['checks']))" | \
-  xargs -P 8 -I{} sh -c './bin/check {} --tier '"$T"' > /tmp/stv_run_{}.log 2>&1; echo "{} exit=$? $(tail -n 30 /tmp/stv_run_{}.log | grep -m1 tier=)"' | sort
+  xargs -P ${JOBS:-8} -I{} sh -c './bin/check {} --tier '"$T"' > /tmp/stv_run_{}.log 2>&1; echo "{} exit=$? $(tail -n 60 /tmp/stv_run_{}.log | grep -m1 tier=)"' | sort
